@@ -34,7 +34,7 @@ if TYPE_CHECKING:
 
 from exabgp.bgp.message.notification import Notify
 from exabgp.bgp.message.open.asn import AS_TRANS
-from exabgp.bgp.message.update.attribute.aspath import SEQUENCE, SET, AS2Path
+from exabgp.bgp.message.update.attribute.aspath import CONFED_SEQUENCE, CONFED_SET, SEQUENCE, SET, AS2Path
 from exabgp.bgp.message.update.attribute.attribute import (
     Attribute,
     Discard,
@@ -392,6 +392,13 @@ class AttributeCollection(MutableMapping[int, Attribute]):
                 # RFC 6793 section 6: a NEW speaker receiving AS4_PATH from a NEW speaker discards it. Merged,
                 # the route was reported and stored with an AS_PATH the peer never sent as AS_PATH.
                 attributes.remove(Attribute.CODE.AS4_PATH)
+            elif (
+                Attribute.CODE.AGGREGATOR in attributes
+                and getattr(attributes[Attribute.CODE.AGGREGATOR], 'asn', AS_TRANS) != AS_TRANS
+            ):
+                # RFC 6793 section 4.2.3: "If the AS number [of the AGGREGATOR] is not AS_TRANS, then ... the
+                # AS4_AGGREGATOR attribute and the AS4_PATH attribute SHALL be ignored". The AS4_AGGREGATOR was.
+                attributes.remove(Attribute.CODE.AS4_PATH)
             else:
                 attributes.merge_attributes()
 
@@ -612,20 +619,44 @@ class AttributeCollection(MutableMapping[int, Attribute]):
         # otherwise the leading (len2 - len4) ASes of AS_PATH, with the segments they are in, are
         # prepended to AS4_PATH. The segments keep their type and their order: flattening every
         # sequence into one and every set into another turned [ set, sequence ] into [ sequence, set ].
-        count2 = sum(len(segment) for segment in as2path.aspath)
-        count4 = sum(len(segment) for segment in as4path.aspath)
+        # "using the method specified in Section 9.1.2.2 of [RFC4271] and in [RFC5065] for route selection": an AS_SET
+        # counts as one AS, the confederation segments are not counted. Counted by their members, an AS4_PATH longer
+        # than the AS_PATH was merged (a confederation member dropped, an AS invented) instead of being ignored.
+        def counted(segment: Any) -> int:
+            if isinstance(segment, (CONFED_SEQUENCE, CONFED_SET)):
+                return 0
+            if isinstance(segment, SET):
+                return 1
+            return len(segment)
+
+        count2 = sum(counted(segment) for segment in as2path.aspath)
+        count4 = sum(counted(segment) for segment in as4path.aspath)
 
         segments: list[Any] = []
         if count2 < count4:
             segments = [type(segment)(list(segment)) for segment in as2path.aspath]
         else:
             leading = count2 - count4
+            whole = True
             for segment in as2path.aspath:
+                if isinstance(segment, (CONFED_SEQUENCE, CONFED_SET)):
+                    # "SHALL be prepended if it is either the leading path segment or is adjacent to a path segment
+                    # that is prepended"
+                    if not segments or whole:
+                        segments.append(type(segment)(list(segment)))
+                        continue
+                    break
                 if leading <= 0:
                     break
+                if isinstance(segment, SET):
+                    segments.append(type(segment)(list(segment)))
+                    leading -= 1
+                    whole = True
+                    continue
                 taken = list(segment)[:leading]
                 segments.append(type(segment)(taken))
                 leading -= len(taken)
+                whole = len(taken) == len(segment)
             for segment in as4path.aspath:
                 # a sequence cut in two by the prepending is still one sequence
                 if segments and type(segments[-1]) is type(segment) and isinstance(segment, SEQUENCE):
